@@ -864,6 +864,10 @@ class BasePort(logging_utils.LoggableMixin, metaclass=abc.ABCMeta):
             except Exception as e:
                 self.error('failed to write value: %s', e)
 
+            # Refresh the last read value (confirming poll) before the next queued evaluation is compared against it;
+            # otherwise an evaluation dequeued right after the write is compared with the value from before the write
+            await main.update()
+
     def _make_eval_context(
         self,
         port_values: dict[str, NullablePortValue],
